@@ -45,51 +45,98 @@ package store
 //@   havoc $CacheDropped $LinkGone $Complete
 //@   ensures err == nil ==> $CacheDropped && $LinkGone && !$Complete
 //@   ensures old($LinkGone) ==> $LinkGone
+//@   effect $RmErr := err != nil
 
 //@ func (*Store).removeQ4
 //@   property C07
 //@   requires s != nil
 //@   havoc $CacheDropped $Complete
 //@   ensures err == nil && !datahash.IsEmptyEDS() ==> !$Complete
+//@   effect $RmErr := err != nil
 
 //@ func (*Store).removeODSQ4
 //@   property C07
 //@   requires s != nil
-//@   havoc $CacheDropped $LinkGone $Complete
+//@   havoc $CacheDropped $LinkGone $Complete $RmErr
 //@   ensures err == nil ==> $LinkGone
+//@   ensures $RmErr <==> err != nil
+
+// "Partially written files are detected and replaced; storing the same block again always succeeds":
+// the recovery step gives up only when a removal or the re-creation itself failed - whatever the
+// validator reported about the leftover files (too short, unreadable header, ...) leads to replacement.
+//   $RmErr     - the last removal (removeODS / removeODSQ4) returned an error
+//   $CreateErr - the last file creation (file.CreateODS / file.CreateODSQ4) returned an error
 
 // The link is made only to complete files; ErrExist from the creation is followed by validation.
+// ($EmptyComplete: the empty block's file was rewritten completely when the store was opened - NewStore
+// fails otherwise; the empty block is never written by put, only linked.)
 //@ func (*Store).linkHeight
 //@   property C07
-//@   requires s != nil && $Complete
+//@   requires s != nil && ($Complete || (datahash.IsEmptyEDS() && $EmptyComplete))
 //@   effect $Linked := err == nil
 
 //@ func (*Store).validateAndRecoverODSQ4
 //@   property C07
 //@   requires s != nil && !$FdOpen
-//@   havoc $CacheDropped $LinkGone $Complete $FdOpen
+//@   havoc $CacheDropped $LinkGone $Complete $FdOpen $RmErr $CreateErr
 //@   ensures err == nil ==> $Complete
+//@   ensures err != nil ==> $RmErr || $CreateErr
 
 //@ func (*Store).validateAndRecoverODS
 //@   property C07
 //@   requires s != nil
-//@   havoc $CacheDropped $LinkGone $Complete
+//@   havoc $CacheDropped $LinkGone $Complete $RmErr $CreateErr
 //@   ensures err == nil ==> $Complete
+//@   ensures err != nil ==> $RmErr || $CreateErr
 
 //@ func (*Store).createODSQ4File
 //@   property C07
 //@   noframe
+//@   havoc $Complete $CacheDropped $LinkGone $FdOpen $RmErr $CreateErr $Linked
 //@   requires s != nil && !$Complete && !$FdOpen
 //@   callpre Store).linkHeight: $Complete
 //@   ensures err == nil ==> $Complete
+//@   ensures result0 ==> err == nil
 
 //@ func (*Store).createODSFile
 //@   property C07
 //@   noframe
+//@   havoc $Complete $CacheDropped $LinkGone $FdOpen $RmErr $CreateErr $Linked
 //@   requires s != nil && !$Complete && !$FdOpen
 //@   callpre Store).linkHeight: $Complete
 //@   ensures err == nil ==> $Complete
+//@   ensures result0 ==> err == nil
 
 //@ func (*Store).hashToRelativePath
 //@   property C07
 //@   trusted
+
+// put: the empty block is only linked; any other block goes through exactly one of the two creation
+// routines, chosen by the caller's flag, and nil is returned only when its files are complete.
+//@ pure func dahHash(d da.DataAvailabilityHeader) []byte
+//@ extern (*github.com/celestiaorg/celestia-app/v9/pkg/da.DataAvailabilityHeader).Hash
+//@   ensures result == dahHash(deref(dah))
+
+//@ func (*Store).put
+//@   property C07 C15
+//@   noframe
+//@   havoc $Complete $CacheDropped $LinkGone $FdOpen $RmErr $CreateErr $Linked $AccOpen
+//@   requires s != nil && roots != nil && !$Complete && !$FdOpen && $EmptyComplete
+//@   callpre Store).linkHeight: $arg1.IsEmptyEDS()
+//@   callpre Store).createODSQ4File: writeQ4 && $arg3 == height && $arg2 == roots && $arg1 == square
+//@   callpre Store).createODSFile: !writeQ4 && $arg3 == height && $arg2 == roots && $arg1 == square
+//@   ensures err == nil ==> $Complete || share.DataHash(dahHash(deref(roots))).IsEmptyEDS()
+
+//@ func (*Store).PutODSQ4
+//@   property C07 C15
+//@   noframe
+//@   requires s != nil && roots != nil && !$Complete && !$FdOpen && $EmptyComplete
+//@   callpre Store).put: $arg5 && $arg3 == height && $arg2 == roots && $arg4 == square
+//@   ensures err == nil ==> $Complete || share.DataHash(dahHash(deref(roots))).IsEmptyEDS()
+
+//@ func (*Store).PutODS
+//@   property C07 C15
+//@   noframe
+//@   requires s != nil && roots != nil && !$Complete && !$FdOpen && $EmptyComplete
+//@   callpre Store).put: !$arg5 && $arg3 == height && $arg2 == roots && $arg4 == square
+//@   ensures err == nil ==> $Complete || share.DataHash(dahHash(deref(roots))).IsEmptyEDS()
